@@ -196,10 +196,10 @@ impl Check for C13 {
         ]
     }
     fn cases(&self, tier: Tier) -> u64 {
-        tier.pick(1_500, 60_000)
+        tier.pick(3_000, 60_000)
     }
     fn min_nontrivial(&self, tier: Tier) -> u64 {
-        tier.pick(5_000, 200_000)
+        tier.pick(10_000, 200_000)
     }
     fn required_counters(&self, _tier: Tier) -> Vec<&'static str> {
         vec!["mut:content", "mut:signature", "proof:faulty", "expiry:judged", "historical:judged"]
